@@ -36,9 +36,12 @@ def to_oa_date(date):
 def to_date(oadate):
     value = oadate - DAYS_EPOCH
     year = 1970
-    while value > year_days(year):
+    while value >= year_days(year):
         value -= year_days(year)
         year += 1
+    while value < 0:
+        year -= 1
+        value += year_days(year)
     month = 0
     while value >= month_days(year, month):
         value -= month_days(year, month)
